@@ -195,7 +195,7 @@ func (ex *Exec) groundAsserts(asserts []*Term, n int64) []*Term {
 		t.Walk(func(x *Term) {
 			key := ""
 			switch {
-			case x.IsSym && x.Op == "concat" && len(x.Args) == 2:
+			case x.IsSym && x.Op == "sconcat" && len(x.Args) == 2:
 				key = x.String()
 				if seen[key] {
 					return
